@@ -165,6 +165,20 @@ def _check_against_reference(api, text, result, ctx):
             return
         if a != b:
             V('function', 'parsed circuit computes %r, the text denotes %r' % (b, a))
+            return
+        # "computes" as the parsed object itself computes: its own truth table (the Gate objects the parser built dispatch to
+        # the library's operators) against what the text denotes
+        if len(ref.inputs) <= 6 and ref.outputs:
+            try:
+                with monitor.suspended():
+                    tt = result.get_truth_table()
+                own = [sum((1 << k) for k, v in enumerate(row) if v) for row in tt]
+                want = list(a)   # same row numbering: input 0 is the most significant index bit in both
+                ctx.count('parsed_object_evaluated')
+                if own != want:
+                    V('object_function', 'the parsed object evaluates to %r, the text denotes %r' % (own, want))
+            except Exception as e:
+                ctx.count('parsed_object_evaluation_failed:' + type(e).__name__)
 
 
 def post_from_string(st, args, kwargs, result):
